@@ -138,6 +138,39 @@ CHECKS.update({
             "Bounded: row alphabet, file length, step depth; BOM-less UTF-16/32 excluded (not self-describing).",
             "DESIGN.md section 4, C19"),
 })
+
+CHECKS.update({
+    "C16": ("bounded exhaustive input enumeration through the real Binance/Bitstamp clients over a loopback HTTP server that "
+            "verifies signatures from the transmitted bytes",
+            "Every signed endpoint of both clients (spot, cross and isolated margin: orders, OCO, query, cancel, open orders, "
+            "trades, account, transfers, listen keys; Bitstamp: balances, open orders, order status, cancel, market/limit/"
+            "instant orders, websocket token) x for each free-form string argument every printable ASCII character in first / "
+            "middle / last position and pairs of URL-special characters (all ordered pairs in thorough) x decimals of several "
+            "exponents; plus decimal keyword arguments of every exponent form and throttled clients on a clock that only "
+            "advances when the client sleeps (timestamp current at send time); Bitstamp nonces pairwise distinct.",
+            "Loopback HTTP without TLS, production Host names through a custom resolver, time patched in the signing modules. "
+            "Characters outside printable ASCII are not enumerated.", "DESIGN.md section 4, C16"),
+    "C17": ("bounded exhaustive input enumeration: outbound through the real clients over the loopback server, inbound through "
+            "every decoding property of every wrapper class",
+            "Outbound: 32 order / transfer entry points (exchange objects and raw clients) x 175 decimals c x 10^e (e in "
+            "-12..12): plain fixed-point notation, numeric equality, unset options absent, endpoint/side/symbol/type per "
+            "table. Inbound: 54 wrapper entries, 204 decimal properties x 175 decimals in both notations, 27 ms-timestamp "
+            "properties x every ms of chosen seconds + year boundaries 2010-2100, 6 us-timestamp properties, JSON-number "
+            "fields, 22 status properties x every status of the code's tables, and exact per-asset sums of commissions / "
+            "filled amounts over every sequence of <=4 (quick) / <=5 (thorough) trades.",
+            "Statuses newer than the code's tables are outside the alphabet (documentation cannot be consulted offline). The "
+            "wrapper table (worlds/payloads.py) was audited by introspection for completeness.", "DESIGN.md section 4, C17"),
+    "C18": ("exhaustive environment-sequence exploration of the real websocket clients with a fake session on a virtual "
+            "event loop",
+            "Every sequence of <=4 (quick) / <=5 (thorough) environment actions (channel message, unknown channel, garbage, "
+            "binary frame, ack / subscription error, reconnect request, clean close, abrupt drop, listen-key expiry, connect "
+            "failure, HTTP failure, slow HTTP / slow send, channel registration, time passing) for a generic client, Binance "
+            "(under a real RealtimeDispatcher so that keep-alive jobs run), Bitstamp public and private; oracle: re-"
+            "subscription on the live connection, convergence to all-channels-subscribed after a fault-free suffix, routing "
+            "counts per source, back-off between connection attempts, listen-key refresh gaps.",
+            "Fake aiohttp session (ws_connect/post/put), virtual clocks; the server acts only at client-quiescent points, "
+            "0.06 virtual s apart.", "DESIGN.md section 4, C18"),
+})
 NOT_YET = "check not built yet (see DESIGN.md section 7 for the build order); no claim is made"
 
 
